@@ -442,6 +442,13 @@ class Parser:
             self.__cstate = None
             if not self.__check_command_completion(testsemicolon=False):
                 return False
+            condition = (
+                self.__curcommand.get_type() == "control"
+                and self.__curcommand.accept_children
+            )
+            if condition:
+                # a block is required here
+                return False
             self.__curcommand.complete_cb()
             self.__up()
             return True
